@@ -4,6 +4,12 @@ NOTES = ("All checks: bin/check <ID> --tier quick|thorough. Exit 0 held / 1 VIOL
          "Specification in spec/, harness in harness/, known findings in known_findings.jsonl; see DESIGN.md.")
 NOT_APPLICABLE = {}
 CHECKS = {
+    "C08": {
+        "level": "model_checking",
+        "technique": "TLA+ Units spec (unit classes and CSS ratios as exact rationals, pi exponent for rad; TLC checks round-trip, transitivity and class/ratio coherence of the table) + Rational; TLC enumerates every operation x ordered unit pair/triple (MC_Units) with the exact expected value, unit, boolean or error; grass evaluates each expression; results compared with the exact rational",
+        "text": "Exhaustive over the 34 known units, an unknown unit and unitless x {+ - % < >= == != * math.compatible math.unit math.div min max}, all three-argument min/max inside a unit class and all division-then-multiplication chains whose convertible pair must cancel (25 k cases; thorough adds two more magnitude pairs): value by the CSS ratios in the left operand's unit, errors for inconvertible units, unit algebra of * and math.div, compound units not emittable.",
+        "note": "Printed numbers are compared within 1e-9 relative / 1.5e-10 absolute of the exact value (numeric accuracy proper is C07); a remainder that is exactly 0 may print as the divisor (binary floating point); left open: min/max of unitless with a unit, exact ties, which of two convertible candidates cancels.",
+    },
     "C18": {
         "level": "model_checking",
         "technique": "One AST, two TLA+ pretty-printers (Render: SCSS and indented) over TLC-generated programs (MC_Eval), variation descriptors enumerated by TLC (MC_Variation: newline styles incl. mixed, blank/whitespace-only/comment line padding, trailing white space, BOM/@charset prefix, '-'/'_' name swaps) applied by the harness; all variants compiled by grass; TLC trace machine Trace_Agree requires identical CSS and logger messages (or unanimous failure), rejection of Sass-only constructs in CSS mode and CSS/SCSS agreement on Sass-free flat CSS",
